@@ -711,7 +711,11 @@ public:
       res = res && m_alloc_env.is_top();
     }
     if (crab_domain_params_man::get().region_deallocation()) {
-      res = res && m_rgn_equiv_classes.is_top();
+      // a freshly made top value holds an empty (neither top nor
+      // bottom) union-find
+      res = res && (m_rgn_equiv_classes.is_top() ||
+                    (!m_rgn_equiv_classes.is_bottom() &&
+                     m_rgn_equiv_classes.is_empty()));
     }
     if (crab_domain_params_man::get().region_tag_analysis()) {
       res = res && m_tag_env.is_top();
